@@ -209,7 +209,7 @@ func (k Keeper) Aggregate(ctx sdk.Context, contract, function string) error {
 		return types.ErrTaskClosed
 	}
 
-	result := taskParams.AggregationResult
+	result := sdk.NewInt(0)
 	totalCollateral := sdk.NewInt(0)
 	minScoreCollateral := sdk.NewInt(0)
 	for i, response := range task.Responses {
@@ -242,6 +242,8 @@ func (k Keeper) Aggregate(ctx sdk.Context, contract, function string) error {
 		}
 		task.Status = types.TaskStatusSucceeded
 	} else {
+		// no usable response: the task fails and keeps the default result
+		result = taskParams.AggregationResult
 		task.Status = types.TaskStatusFailed
 	}
 	task.Result = result
